@@ -617,6 +617,6 @@ pub fn def() -> PropDef {
             "a crash stops all tasks of the process at a request boundary or pause point; WAL files contain what was written (torn WAL tails are C05)",
             "duplicates after recovery are permitted; rows of writes that returned Err are unconstrained",
         ],
-        subs: || vec![Box::new(Sub::<Case> { name: "history", cases: |t| t.scale(8_000, 8), strategy, exec })],
+        subs: || vec![Box::new(Sub::<Case> { name: "history", cases: |t| t.scale(20_000, 6), strategy, exec })],
     }
 }
